@@ -231,5 +231,109 @@ class ParmapH(Harness):
         return StreamExec(cfg)
 
 
-HARNESSES = {'buffer': BufferH, 'parmap': ParmapH}
-PLAN = {'quick': ['buffer', 'parmap'], 'thorough': ['buffer', 'parmap']}
+class AsyncExec(StreamExec):
+    """Async adapters: SyncIter (sync consumer of an async source), AsyncBuffer / AsyncIter (async consumer)."""
+
+    def asource(self):
+        cfg = self.cfg
+        kind, k = cfg['ev']
+        n = cfg['n']
+
+        async def agen():
+            for i in range(n):
+                if kind == 'src_raise' and i == k:
+                    raise Boom('src', i)
+                if kind == 'break_src_raise' and i > k:
+                    raise Boom('src-after-break', i)
+                yield i
+        return agen()
+
+    def body(self):
+        import asyncio
+        from mpservice.streamer import _streamer_async as A
+        cfg = self.cfg
+        kind, k = cfg['ev']
+        pipe = cfg['pipe']
+        self.f = lambda x: x
+        if pipe == 'synciter':
+            out = []
+            end = None
+            it = iter(A.SyncIter(self.asource()))
+            try:
+                for y in it:
+                    out.append(y)
+                    if kind in ('break', 'break_src_raise') and len(out) >= k:
+                        break
+                end = 'end'
+            except Boom:
+                end = 'Boom'
+            it.close()
+            del it
+            return out, end, live_threads()
+
+        async def main():
+            out = []
+            end = None
+            if pipe == 'asyncbuffer':
+                ait = A.AsyncBuffer(self.asource(), maxsize=cfg['m']).__aiter__()
+            elif pipe == 'asynciter':
+                ait = A.AsyncIter(self.source()).__aiter__()
+            else:
+                raise ValueError(pipe)
+            try:
+                async for y in ait:
+                    out.append(y)
+                    if kind in ('break', 'break_src_raise') and len(out) >= k:
+                        break
+                end = 'end'
+            except Boom:
+                end = 'Boom'
+            await ait.aclose()
+            return out, end
+
+        out, end = asyncio.run(main())
+        return out, end, live_threads()
+
+
+class AsyncAdaptersH(Harness):
+    name = 'async_adapters'
+    opts = dict(max_points=4000, timers='free', max_timer_fires=400)
+
+    def setup(self):
+        from mc import vloop
+        vloop.install()
+        from mpservice._queues import SingleLane
+        from mpservice.streamer import _streamer_async as A
+        codes = []
+        for f in (A.SyncIter._worker, A.SyncIter._start, A.SyncIter._finalize, A.SyncIter.__iter__,
+                  A.AsyncBuffer._start, A.AsyncBuffer._run_worker, A.AsyncBuffer._finalize, A.AsyncBuffer.__aiter__,
+                  SingleLane.put, SingleLane.get):
+            codes += sched.all_codes(f)
+        return codes
+
+    def configs(self, tier):
+        out = []
+        d = 1 if tier == 'quick' else 2
+        cap = 20000 if tier == 'quick' else 200000
+        for n in (2, 5):
+            evs = [['none', 0], ['break', 1], ['break', 2], ['src_raise', 0], ['src_raise', 1], ['src_raise', 3],
+                   ['break_src_raise', 1]]
+            for ev in evs:
+                if ev[1] > n:
+                    continue
+                out.append(dict(pipe='synciter', n=n, ev=ev, bound=d, cap=cap))
+                if n == 5:
+                    out.append(dict(pipe='asynciter', n=n, ev=ev, bound=d, cap=cap))
+        for m in (1, 2, 3):
+            n = m + 3
+            for ev in (['none', 0], ['break', 1], ['break', 2], ['src_raise', 0], ['src_raise', 2],
+                       ['break_src_raise', 1], ['break_src_raise', 2]):
+                out.append(dict(pipe='asyncbuffer', m=m, n=n, ev=ev, bound=d, cap=cap))
+        return out
+
+    def new(self, cfg):
+        return AsyncExec(cfg)
+
+
+HARNESSES = {'buffer': BufferH, 'parmap': ParmapH, 'async_adapters': AsyncAdaptersH}
+PLAN = {'quick': ['buffer', 'parmap', 'async_adapters'], 'thorough': ['buffer', 'parmap', 'async_adapters']}
